@@ -111,8 +111,33 @@ func runC17(r *Report, tier string) {
 				continue
 			}
 			cc := &ctorCase{alg: alg, rsaBound: -1}
+			// requirements checked inside helpers whose success the path
+			// requires count as checked here: the path conditions are expanded
+			// through such helpers (every alternative must give the same answer)
+			conds := p.conds
+			if alts := P.expandConds(p.conds, 0); len(alts) == 1 {
+				conds = alts[0]
+			} else if len(alts) > 1 {
+				var common []Fact
+				for _, c := range alts[0] {
+					inAll := true
+					for _, a := range alts[1:] {
+						found := false
+						for _, d := range a {
+							if d.String() == c.String() {
+								found = true
+							}
+						}
+						inAll = inAll && found
+					}
+					if inAll {
+						common = append(common, c)
+					}
+				}
+				conds = common
+			}
 			// asserted key type
-			for _, c := range p.conds {
+			for _, c := range conds {
 				if c.Val && c.Pred.Op == "res" && c.Pred.S == "1" && c.Pred.Args[0].Op == "typeassert" && strings.HasSuffix(strings.TrimSuffix(c.Pred.Args[0].S, ",ok"), "PublicKey") {
 					src := c.Pred.Args[0].Args[0].String()
 					if src == "$1" || src == "call<invoke:crypto.Signer.Public>($1)" {
